@@ -207,8 +207,15 @@ func famClose(w *World) {
 		sleep(maxTimeout + 30*time.Second)
 		spy.checkEnded()
 	}
+	// the history-based rules are judged once traffic has ceased: an answer still queued behind
+	// other frames on a slow link is an answer
+	w.QuiesceStarted = true
+	for _, l := range w.Net.Links {
+		l.Heal()
+	}
+	w.settle(maxTimeout + 5*time.Second)
 	w.checkCloseOracles(victim)
-	w.quiesce(maxTimeout+5*time.Second, true)
+	w.quiesce(time.Second, true)
 }
 
 // checkCloseOracles evaluates the history-based rules of C07 for the node
